@@ -103,11 +103,19 @@ pub fn run(stim: &Value, rec: &Rec) {
     let code = Code::from_i32(stim["code"].as_i64().unwrap_or(3) as i32);
     let msg = s(&stim["msg"]);
     let form = stim["form"].as_str().unwrap_or("vec");
-    let built = match form {
-        "hostile" => Status::with_details(code, msg, json_bytes(&stim["bytes"]).into()),
-        _ => {
+    // optional custom metadata on the status (stim.meta, same form as in the status lab): it must not disturb the details
+    let meta = if stim["meta"].is_array() { Some(crate::labs::status::build_meta(&stim["meta"]).0) } else { None };
+    let built = match (form, meta) {
+        ("hostile", None) => Status::with_details(code, msg, json_bytes(&stim["bytes"]).into()),
+        ("hostile", Some(m)) => Status::with_details_and_metadata(code, msg, json_bytes(&stim["bytes"]).into(), m),
+        (_, m) => {
             let details: Vec<ErrorDetail> = stim["details"].as_array().cloned().unwrap_or_default().iter().map(from_json).collect();
-            if form == "set" { Status::with_error_details(code, msg, set_of(&details)) } else { Status::with_error_details_vec(code, msg, details) }
+            match (form == "set", m) {
+                (true, None) => Status::with_error_details(code, msg, set_of(&details)),
+                (true, Some(m)) => Status::with_error_details_and_metadata(code, msg, set_of(&details), m),
+                (false, None) => Status::with_error_details_vec(code, msg, details),
+                (false, Some(m)) => Status::with_error_details_vec_and_metadata(code, msg, details, m),
+            }
         }
     };
     rec.ev(json!({"e":"built","details":bytes_json(built.details())}));
@@ -141,6 +149,17 @@ pub fn rand_detail(rng: &mut impl Rng, kind: usize) -> Value {
     };
     to_json(&d)
 }
+/// custom metadata for a status: ordinary entries, and in half of the cases an entry named like the details header itself
+/// (a proxy copying upstream trailers into its own status metadata) holding some other status's details
+fn status_meta(rng: &mut impl Rng) -> Value {
+    let mut m = vec![json!({"n":"x-trace","bin":false,"v":bytes_json(b"t1")}), json!({"n":"x-blob-bin","bin":true,"v":[1,2,3]})];
+    if rng.gen_bool(0.5) {
+        let stale = Status::with_error_details_vec(Code::ResourceExhausted, "upstream", vec![QuotaFailure::new(vec![QuotaViolation::new("s", "d")]).into()]);
+        m.push(json!({"n":"grpc-status-details-bin","bin":true,"v":bytes_json(stale.details())}));
+    }
+    if rng.gen_bool(0.3) { m.push(json!({"n":"grpc-message","bin":false,"v":bytes_json(b"from metadata")})); }
+    Value::Array(m)
+}
 pub fn gen(seed: u64, tier: &str) -> Vec<Value> {
     let mut rng = rand::rngs::StdRng::seed_from_u64(seed ^ 0xC20);
     let mut out = vec![];
@@ -148,7 +167,9 @@ pub fn gen(seed: u64, tier: &str) -> Vec<Value> {
     let step = if tier == "thorough" { 1 } else { 5 };
     for mask in (0..1024u32).step_by(step) {
         let details: Vec<Value> = (0..10).filter(|k| mask >> k & 1 == 1).map(|k| rand_detail(&mut rng, k)).collect();
-        out.push(json!({"form":"set","class":"all_sets","code":rng.gen_range(0..17),"msg":str_json(&rs(&mut rng)),"details":details}));
+        let mut st = json!({"form":"set","class":"all_sets","code":rng.gen_range(0..17),"msg":str_json(&rs(&mut rng)),"details":details});
+        if mask % 3 == 0 { st["meta"] = status_meta(&mut rng); st["class"] = json!("all_sets_with_metadata"); }
+        out.push(st);
     }
     // ordered lists of length <= 3 over 10 kinds with repetition (1 + 10 + 100 + 1000)
     let mut lists: Vec<Vec<usize>> = vec![vec![]];
@@ -156,7 +177,9 @@ pub fn gen(seed: u64, tier: &str) -> Vec<Value> {
     for (i, l) in lists.iter().enumerate() {
         if tier != "thorough" && l.len() == 3 && i % 6 != 0 { continue; }
         let details: Vec<Value> = l.iter().map(|k| rand_detail(&mut rng, *k)).collect();
-        out.push(json!({"form":"vec","class":"ordered_lists","code":rng.gen_range(0..17),"msg":str_json(&rs(&mut rng)),"details":details}));
+        let mut st = json!({"form":"vec","class":"ordered_lists","code":rng.gen_range(0..17),"msg":str_json(&rs(&mut rng)),"details":details});
+        if i % 4 == 0 { st["meta"] = status_meta(&mut rng); st["class"] = json!("ordered_lists_with_metadata"); }
+        out.push(st);
     }
     // field sweep: for every kind, every string field empty / non-empty and every list of length 0..2; RetryInfo with no delay and
     // delays on a grid of seconds x nanos (incl. sub-second, the protobuf maximum and beyond it)
